@@ -259,8 +259,14 @@ def fatal_excerpt(err):
     return " | ".join(head[:4]) + " at=" + "<".join(frames)
 
 
+def signatures(cls, obs):
+    """a history whose reads panic in several places reports them joined by ' ALSO '"""
+    return [signature(cls, o) for o in obs.split(" ALSO ")]
+
+
 def signature(cls, obs):
-    s = obs
+    s = obs.split(" ALSO ")[0]
+    obs = s
     m = re.search(r"msg=(.*?) at=(\S*)", obs)
     if m:
         s = m.group(1) + " @" + "<".join(m.group(2).split("<")[:2])
@@ -268,6 +274,7 @@ def signature(cls, obs):
         m = re.search(r"(fatal error: [^|]*|panic: [^|]*|signal: \w+)", obs)
         fr = re.search(r"at=(\S*)", obs)
         s = (m.group(1).strip() if m else obs[:80]) + " @" + ("<".join(fr.group(1).split("<")[:2]) if fr else "")
+    s = re.sub(r"\*yang\.\w+", "*yang.T", s)
     s = re.sub(r"0x[0-9a-f]+", "0x?", s)
     s = re.sub(r"\d+", "N", s)
     return cls + ": " + s[:160]
@@ -1579,7 +1586,7 @@ def minimise(line, sig, cwd, budget_s=150, max_runs=600):
             return False
         runs[0] += 1
         c, o = run_single(l, cwd, timeout=tmo)
-        return c in BAD and signature(c, o) == sig
+        return c in BAD and sig in signatures(c, o)
 
     case = decode_case(line)
 
@@ -1677,7 +1684,8 @@ def minimise(line, sig, cwd, budget_s=150, max_runs=600):
         shrink_text(get, put)
     out = encode_case(case)
     c, o = run_single(out, cwd, timeout=tmo)
-    if c in BAD and signature(c, o) == sig:
+    if c in BAD and sig in signatures(c, o):
+        o = ([x for x in o.split(" ALSO ") if signature(c, x) == sig] + [o])[0]
         return out, c, o, runs[0]
     return line, None, None, runs[0]
 
@@ -1709,6 +1717,7 @@ def stack_depth_shape(line, obs):
 
 def report(res, gen, line, cls, obs, cwd, do_min):
     sig = signature(cls, obs)
+    lib.log("C01 failing case found (%s), %s ..." % (sig, "minimising" if do_min else "not minimised"))
     orig = line
     runs = 0
     if do_min:
@@ -1769,7 +1778,8 @@ def run(res, tier, seed, proof):
                                else [decode_case(line)["text"]])), o[:120]))
                     outcomes["known-stack-depth"] += 1
                     continue
-                bad_by_sig.setdefault(signature(cls, o), []).append((gen, line, cls, o))
+                for piece in o.split(" ALSO "):
+                    bad_by_sig.setdefault(signature(cls, piece), []).append((gen, line, cls, piece))
 
         corpus = load_corpus()
         dist["corpus-cases"] = len(corpus)
